@@ -52,3 +52,10 @@ Theorem c01_reachable_worlds_are_consistent :
     RInv (fold_left (run_top beh) ops (world0 fuel p)).
 Proof. exact reachable_RInv. Qed.
 Print Assumptions c01_reachable_worlds_are_consistent.
+
+Require Import EV.Member.
+Theorem c01_reachable_worlds_are_consistent_all_calls :
+  forall (beh : hinfo -> logent -> N -> script) (fuel p : N) (ops : list top_all),
+    FInv (fold_left (run_top_all beh) ops (world0 fuel p)).
+Proof. exact reachable_FInv. Qed.
+Print Assumptions c01_reachable_worlds_are_consistent_all_calls.
